@@ -5,7 +5,7 @@
    closed, productive (no vacuous definition), free of nested service constructors and has unique field ids -- which are
    exactly the hypotheses under which name tracing, subtyping, coercion and annotation are proved total and correct. *)
 From Coq Require Import List NArith.
-From CandidV Require Import model.Check model.Coerce proofs.CoerceProofs proofs.CheckProofs.
+From CandidV Require Import model.Check model.Coerce model.Memo proofs.CoerceProofs proofs.CheckProofs proofs.MemoProofs proofs.MemoInst proofs.MemoTotal proofs.MemoBridge.
 Open Scope N_scope.
 
 Theorem C14_closed : forall E, check_decs E = true -> wf_env E = true.
@@ -17,6 +17,22 @@ Proof. exact check_decs_traces. Qed.
 Theorem C14_actor_closed : forall E a t, check_prog E (Some a) = true ->
   (a = t \/ exists args, a = TClass args t) -> (forall args u, t <> TClass args u) -> ty_closed E t = true.
 Proof. exact check_prog_actor_closed. Qed.
+
+(* "... so name tracing, subtyping ... on it terminate without panicking": on an environment the checker accepts, and for
+   types it accepts against that environment, the memoising subtype checker as it is (Memo.v) answers every query of every
+   history within [fuel_bound] levels of nesting, never meets an unbound name, and every answer is the oracle's *)
+Theorem C14_subtyping_total : forall E qs g f,
+  check_decs E = true ->
+  forallb (fun q => check_type E (fst q) && check_type E (snd q)) qs = true ->
+  sound_memo E g -> (fuel_bound E qs <= f)%nat ->
+  let o := sub_history E false f g qs in
+  Forall2 (fun q r => (r = MOk <-> sub_dec E (fst q) (snd q) = true) /\ (r = MErr <-> sub_dec E (fst q) (snd q) = false)) qs (snd o)
+  /\ sound_memo E (fst o).
+Proof. exact accepted_env_subtyping_total. Qed.
+
+Theorem C14_nodes_bound : forall E ts,
+  wf_env E = true -> productive E = true -> forallb (ty_closed E) ts = true -> bound_nodes E ts = true.
+Proof. exact bound_nodes_of_closed. Qed.
 
 (* accepted / rejected examples: alias cycle, undefined name, non-function method through an alias chain, oneway with result *)
 Example C14_ex :
@@ -32,3 +48,5 @@ Proof. vm_compute. repeat split; reflexivity. Qed.
 Print Assumptions C14_closed.
 Print Assumptions C14_tracing_terminates.
 Print Assumptions C14_actor_closed.
+Print Assumptions C14_subtyping_total.
+Print Assumptions C14_nodes_bound.
